@@ -397,6 +397,14 @@ class Reason:
             for x, k in ((a[2], a[3]), (a[3], a[2])):
                 if k == Int(1) and self.f.decide_atom(("lt", x, b)) is True:
                     return True, "strict order + 1"
+                # x <= b, and x, b are the positions of two different one-character patterns in the same string
+                # (`s.find('[')` / `s.rfind(']')`): they cannot coincide, so x < b
+                if k == Int(1) and self.f.decide_atom(("lt", b, x)) is False:
+                    fx, fb = self.find_payload(x), self.find_payload(b)
+                    if fx is not None and fb is not None and fx[0] == fb[0]:
+                        tx, tb = pat_text(fx[1]), pat_text(fb[1])
+                        if tx is not None and tb is not None and len(tx) == 1 and len(tb) == 1 and tx != tb:
+                            return True, "positions of distinct characters"
         # prefix literal of k bytes and a 1-byte suffix pattern the literal does not end with: k <= len - 1
         if is_int(a) and isinstance(b, tuple) and b[0] == "bin" and b[1] == "Sub" and b[3] == Int(1) and isinstance(b[2], tuple) and b[2][0] == "strlen":
             s = norm_str(b[2][1])
